@@ -341,14 +341,15 @@ SEQ_SPI = {'c06_call_sequence_bounded': 'three calls on one SpiInterface (fill; 
 SEQ_PAR = {'c07_send_pixels_3word_bounded': '2 pixels x 3 words on the 8-bit bus', 'c07_call_sequence_bounded': 'two calls on one ParallelInterface, one two-word pixel each'}
 EXTRA = {
     'C06': {'files': ['spi.rs'], 'quick': SEQ_SPI},
-    'C20': {'files': ['spi.rs'], 'quick': SEQ_SPI, 'after': 'c06_repeated_pixel_bounded'},
+    'C20': {'files': ['spi.rs', 'root.rs'], 'quick': dict(SEQ_SPI, c03_batch_vertical_pair_colours='one concrete geometry (3,5),(3,6) on the 240x320 panel, colours symbolic, batch mode'), 'after': 'c06_repeated_pixel_bounded'},
     'C05': {'files': ['spi.rs', 'parallel.rs'], 'quick': dict(SEQ_SPI, **SEQ_PAR)},
     'C07': {'files': ['parallel.rs'], 'quick': SEQ_PAR, 'thorough': {'c07_send_repeated_pixel_3word_bounded': 'three-word pixel, count <= 2'}},
     'C11': {'files': ['builder.rs'], 'quick': {'c11_builder_call_order': None}},
     'C09': {'files': ['builder.rs'], 'quick': {'c11_builder_call_order': None}},
     'C17': {'files': ['builder.rs'], 'quick': {'c11_builder_call_order': None}},
     'C08': {'files': ['batch.rs'], 'quick': {'c03_block_capacity_rows': 'one concrete input: three stacked rows of width 40 (the third no longer fits the 100-colour block)'}},
-    'C03': {'files': ['batch.rs'], 'quick': {'c03_block_capacity_rows': 'one concrete input: three stacked rows of width 40 (the third no longer fits the 100-colour block)'}},
+    'C03': {'files': ['batch.rs', 'root.rs'], 'quick': {'c03_block_capacity_rows': 'one concrete input: three stacked rows of width 40 (the third no longer fits the 100-colour block)',
+                                                       'c03_batch_vertical_pair_colours': 'one concrete geometry (3,5),(3,6) on the 240x320 panel, colours symbolic, batch mode'}},
     # C01 quantifies over the transports: what the controller decodes is what the pins / the SPI wire carry (C06/C07 obligations)
     'C01': {'files': ['spi.rs', 'parallel.rs'], 'tags': ['C06', 'C07'],
             'quick': {'c07_set_value_step_8': None, 'c07_set_value_step_16': None, 'c07_send_word_latches_word': None, 'c06_send_command_order_and_faults': None}},
